@@ -45,34 +45,75 @@ type SCase struct {
 
 // ---------------------------------------------------------------- generator
 
+// Histories are drawn with rapid.SliceOfN over a Custom element generator so
+// that the shrinker can delete steps in the middle of a history. Sequence
+// numbers are drawn as (mode, argument) per write and resolved to concrete
+// numbers afterwards, because several modes are relative to the previous write.
+
 type seqState struct{ last uint64 }
 
-// drawSeq draws a sequence number: monotone runs (what the engine does), ties
-// (all entries of a batch share one number), small repeated/non-monotone
-// numbers, steps backwards and the edges of the domain.
-func drawSeq(t *rapid.T, st *seqState) uint64 {
+// gOp is a drawn, not yet resolved step.
+type gOp struct {
+	Op   Op
+	Mode string
+	Arg  uint64
+	Pre  []gOp
+}
+
+// drawSeqMode draws how the sequence number of a write relates to the
+// previous one: monotone runs (what the engine does), ties (all entries of a
+// batch share one number), small repeated/non-monotone numbers, steps
+// backwards and the edges of the domain.
+func drawSeqMode(t *rapid.T) (string, uint64) {
+	switch m := rapid.SampledFrom([]string{"next", "next", "next", "same", "same", "small", "small", "small", "back", "edge"}).Draw(t, "seqmode"); m {
+	case "small":
+		return m, rapid.Uint64Range(0, 6).Draw(t, "seqsmall")
+	case "back":
+		return m, rapid.Uint64Range(1, 3).Draw(t, "seqback")
+	case "edge":
+		return m, rapid.SampledFrom([]uint64{0, 1, 1 << 32, 1 << 63, math.MaxUint64 - 1, math.MaxUint64}).Draw(t, "seqedge")
+	default:
+		return m, 0
+	}
+}
+
+func (st *seqState) resolve(mode string, arg uint64) uint64 {
 	var s uint64
-	switch rapid.SampledFrom([]string{"next", "next", "next", "same", "same", "small", "small", "small", "back", "edge"}).Draw(t, "seqmode") {
+	switch mode {
 	case "next":
 		s = st.last + 1
 	case "same":
 		s = st.last
-	case "small":
-		s = rapid.Uint64Range(0, 6).Draw(t, "seqsmall")
 	case "back":
-		s = st.last - rapid.Uint64Range(1, 3).Draw(t, "seqback")
+		s = st.last - arg
 		if s > st.last { // wrapped below zero
 			s = 0
 		}
 	default:
-		s = rapid.SampledFrom([]uint64{0, 1, 1 << 32, 1 << 63, math.MaxUint64 - 1, math.MaxUint64}).Draw(t, "seqedge")
+		s = arg
 	}
-	if s == math.MaxUint64 && !ev.Flag("seq_max_uint64") {
+	if s == math.MaxUint64 && !flagOn("seq_max_uint64") {
 		ev.R().Exclude("seq_max_uint64")
 		s = math.MaxUint64 - 1
 	}
 	st.last = s
 	return s
+}
+
+// resolveOps turns drawn steps into concrete ones.
+func resolveOps(st *seqState, in []gOp) []Op {
+	out := make([]Op, 0, len(in))
+	for _, g := range in {
+		o := g.Op
+		if o.Op == "put" || o.Op == "del" {
+			o.Seq = st.resolve(g.Mode, g.Arg)
+		}
+		if len(g.Pre) > 0 {
+			o.Pre = resolveOps(st, g.Pre)
+		}
+		out = append(out, o)
+	}
+	return out
 }
 
 func drawVL(t *rapid.T) int {
@@ -90,42 +131,45 @@ func drawVL(t *rapid.T) int {
 	}
 }
 
-func drawActs(t *rapid.T, ntg int, adapter bool) []Act {
-	n := rapid.IntRange(1, 3).Draw(t, "nacts")
-	acts := make([]Act, 0, n)
-	for i := 0; i < n; i++ {
-		a := Act{}
-		switch rapid.SampledFrom([]string{"first", "seek", "seek", "seek", "last"}).Draw(t, "pos") {
-		case "first":
-			a.T = -1
-		case "last":
-			if adapter {
-				a.T = -2
-			} else {
-				a.T = -1
-			}
-		default:
-			a.T = rapid.IntRange(0, ntg-1).Draw(t, "target")
-		}
-		if rapid.Bool().Draw(t, "all") {
-			a.N = -1
+func drawAct(t *rapid.T, ntg int, adapter bool) Act {
+	a := Act{}
+	switch rapid.SampledFrom([]string{"first", "seek", "seek", "seek", "last"}).Draw(t, "pos") {
+	case "first":
+		a.T = -1
+	case "last":
+		if adapter {
+			a.T = -2
 		} else {
-			a.N = rapid.IntRange(0, 6).Draw(t, "n")
+			a.T = -1
 		}
-		acts = append(acts, a)
+	default:
+		a.T = rapid.IntRange(0, ntg-1).Draw(t, "target")
 	}
-	return acts
+	if rapid.Bool().Draw(t, "all") {
+		a.N = -1
+	} else {
+		a.N = rapid.IntRange(0, 6).Draw(t, "n")
+	}
+	return a
 }
 
-func drawWrite(t *rapid.T, nk int, st *seqState, keyBias []int) Op {
+func drawActs(t *rapid.T, ntg int, adapter bool) []Act {
+	return rapid.SliceOfN(rapid.Custom(func(t *rapid.T) Act { return drawAct(t, ntg, adapter) }), 1, 3).Draw(t, "acts")
+}
+
+func drawWrite(t *rapid.T, nk int, hot []int) gOp {
 	k := rapid.IntRange(0, nk-1).Draw(t, "k")
-	if len(keyBias) > 0 && rapid.Bool().Draw(t, "hotkey") {
-		k = keyBias[rapid.IntRange(0, len(keyBias)-1).Draw(t, "hot")]
+	if len(hot) > 0 && rapid.Bool().Draw(t, "hotkey") {
+		k = hot[rapid.IntRange(0, len(hot)-1).Draw(t, "hot")]
 	}
+	g := gOp{}
 	if rapid.IntRange(0, 9).Draw(t, "isdel") < 3 {
-		return Op{Op: "del", K: k, Seq: drawSeq(t, st)}
+		g.Op = Op{Op: "del", K: k}
+	} else {
+		g.Op = Op{Op: "put", K: k, VL: drawVL(t)}
 	}
-	return Op{Op: "put", K: k, Seq: drawSeq(t, st), VL: drawVL(t)}
+	g.Mode, g.Arg = drawSeqMode(t)
+	return g
 }
 
 func genSCase(t *rapid.T, pool bool) SCase {
@@ -153,24 +197,22 @@ func genSCase(t *rapid.T, pool bool) SCase {
 	} else {
 		add("imm", 1)
 	}
-	n := rapid.IntRange(8, 60).Draw(t, "nops")
-	st := &seqState{}
-	for i := 0; i < n; i++ {
+	step := rapid.Custom(func(t *rapid.T) gOp {
 		switch name := rapid.SampledFrom(ops).Draw(t, "op"); name {
 		case "write":
-			o := drawWrite(t, nk, st, hot)
-			if pool && rapid.IntRange(0, 6).Draw(t, "toimm") == 0 {
-				o.Tb = rapid.IntRange(1, 4).Draw(t, "tb")
+			g := drawWrite(t, nk, hot)
+			if pool && rapid.IntRange(0, 6).Draw(t, "toimm") == 6 {
+				g.Op.Tb = rapid.IntRange(1, 4).Draw(t, "tb")
 			}
-			c.Ops = append(c.Ops, o)
+			return g
 		case "get", "contains":
 			o := Op{Op: name, K: rapid.IntRange(0, nk-1).Draw(t, "k")}
 			if pool {
 				o.Tb = rapid.IntRange(0, 4).Draw(t, "tb")
 			}
-			c.Ops = append(c.Ops, o)
+			return gOp{Op: o}
 		case "pget":
-			c.Ops = append(c.Ops, Op{Op: "pget", K: rapid.IntRange(0, nk-1).Draw(t, "k")})
+			return gOp{Op: Op{Op: "pget", K: rapid.IntRange(0, nk-1).Draw(t, "k")}}
 		case "iter", "hold":
 			o := Op{Op: name, Ad: rapid.Bool().Draw(t, "adapter")}
 			if pool {
@@ -181,22 +223,20 @@ func genSCase(t *rapid.T, pool bool) SCase {
 			} else {
 				o.Acts = drawActs(t, ntg, o.Ad)
 			}
-			c.Ops = append(c.Ops, o)
+			return gOp{Op: o}
 		case "use":
 			o := Op{Op: "use", Slot: rapid.IntRange(0, 2).Draw(t, "slot")}
 			o.Acts = drawActs(t, ntg, true) // -2 is degraded for raw iterators at run time
-			c.Ops = append(c.Ops, o)
+			return gOp{Op: o}
 		case "setactive":
-			o := Op{Op: "setactive"}
-			m := rapid.IntRange(0, 5).Draw(t, "npre")
-			for j := 0; j < m; j++ {
-				o.Pre = append(o.Pre, drawWrite(t, nk, st, hot))
-			}
-			c.Ops = append(c.Ops, o)
+			g := gOp{Op: Op{Op: "setactive"}}
+			g.Pre = rapid.SliceOfN(rapid.Custom(func(t *rapid.T) gOp { return drawWrite(t, nk, hot) }), 0, 5).Draw(t, "pre")
+			return g
 		default:
-			c.Ops = append(c.Ops, Op{Op: name})
+			return gOp{Op: Op{Op: name}}
 		}
-	}
+	})
+	c.Ops = resolveOps(&seqState{}, rapid.SliceOfN(step, 8, 60).Draw(t, "ops"))
 	return c
 }
 
@@ -435,7 +475,7 @@ func (r *runner) runActs(h *held, acts []Act) *viol {
 				h.tm.v.build()
 				o.HasTarget = true
 				o.Target = r.c.Keys[h.tm.v.ents[h.tm.v.sorted[n-1]].k]
-				if len(o.Y) == 0 {
+				if !o.Positioned {
 					return &viol{"adapter/seek-to-last-empty", fmt.Sprintf("SeekToLast on a table with %d entries is not valid", n)}
 				}
 			}
@@ -469,6 +509,7 @@ func scan(raw *memtable.Iterator, ad *memtable.IteratorAdapter, a Act, tg [][]by
 				return o
 			}
 		}
+		o.Positioned = ad.Valid()
 		for n != 0 && ad.Valid() {
 			k, v, tomb, s := ad.Key(), ad.Value(), ad.IsTombstone(), ad.SequenceNumber()
 			if k == nil {
@@ -499,6 +540,7 @@ func scan(raw *memtable.Iterator, ad *memtable.IteratorAdapter, a Act, tg [][]by
 	} else {
 		raw.SeekToFirst()
 	}
+	o.Positioned = raw.Valid()
 	for n != 0 && raw.Valid() {
 		k, v, vt, tomb, s := raw.Key(), raw.Value(), raw.ValueType(), raw.IsTombstone(), raw.SequenceNumber()
 		switch {
